@@ -69,7 +69,10 @@ def padding_package(rng=None, n_random=0):
     rz4 = rec("Rz4", [("a", fixvec(prim("uint8"), 3)), ("b", rz1), ("c", fixarr(prim("int8"), [1, 1]))])
     steps = [("a", vec(ra), False), ("b", rb, True), ("c", vec(rc), False), ("d", vec(rd), False),
              ("e", fixvec(re_, 3), True), ("z1", rz1, False), ("z2", vec(rz2), False), ("z3", rz3, False),
-             ("z4", fixvec(rz4, 2), False), ("z5", fixvec(prim("float64"), 0), False)]
+             ("z4", fixvec(rz4, 2), False), ("z5", fixvec(prim("float64"), 0), False),
+             # arrays whose elements are records: numpy's aligned structured dtypes have the same padding as the C++ structs
+             ("na", T("dynarr", "Ra[]", e=ra), False), ("nb", fixarr(rb, [2]), False), ("nc", T("arr", "Rc[,]", rank=2, e=rc), False),
+             ("nd", T("dynarr", "Rd[]", e=rd), False), ("ne", fixarr(re_, [2, 2]), False), ("nz", T("arr", "Rz4[x]", rank=1, e=rz4), False)]
     if rng is not None:
         for i in range(n_random):
             fields = []
@@ -94,7 +97,10 @@ def padding_package(rng=None, n_random=0):
                     t = rng.choice([prim("string"), vec(prim("uint8")), T("opt", "float32?", e=prim("float32"))])
                 fields.append(("f%d" % j, t))
             r = rec("Rr%d" % i, fields)
-            steps.append(("r%d" % i, r if rng.random() < 0.5 else vec(r), False))
+            layout_only = any(t.kind in ("vec", "opt") or (t.kind == "prim" and t.p == "string") for _, t in fields)
+            wrap = rng.choice(["plain", "vec", "dynarr", "arr"]) if not layout_only else rng.choice(["plain", "vec"])
+            steps.append(("r%d" % i, {"plain": r, "vec": vec(r), "dynarr": T("dynarr", r.spell + "[]", e=r),
+                                      "arr": T("arr", r.spell + "[,]", rank=2, e=r)}[wrap], False))
     pkg.protocols.append(("Ppad", steps))
     pkg.records = recs
     return pkg
